@@ -69,8 +69,13 @@ AZ_AZIMUTHS = [0, 60, 120]
 FD = ["geometric_mean", "squared_average", "maximum_horizontal_value", "arithmetic_mean",
       "total_horizontal_energy"]
 KINDS_QUICK = ["fd:geometric_mean", "fd:squared_average", "fd:maximum_horizontal_value",
-               "single", "rotdpp", "azimuthal", "diffuse", "psd"]
-KINDS_ALL = ["fd:" + m for m in FD] + ["single", "rotdpp", "azimuthal", "diffuse", "psd"]
+               "single", "rotdpp", "azimuthal", "diffuse", "psd",
+               "fd:arithmetic_mean@keeping_smallest_time_step", "single@keeping_majority_time_step"]
+KINDS_ALL = ["fd:" + m for m in FD] + ["single", "rotdpp", "azimuthal", "diffuse", "psd",
+                                       "fd:geometric_mean@keeping_smallest_time_step",
+                                       "fd:squared_average@keeping_majority_time_step",
+                                       "rotdpp@keeping_smallest_time_step", "diffuse@keeping_smallest_time_step",
+                                       "single@keeping_majority_time_step"]
 WIDTHS = [0.0, 0.1, 0.5]
 FFT_REQUESTS = {"default": lambda: None, "nopad": lambda: {"n": None}, "n128": lambda: {"n": 128}}
 
@@ -98,6 +103,7 @@ def _decoy():
 
 
 def path_of(kind):
+    kind = kind.partition("@")[0]
     if kind.startswith("fd:"):
         return "frequency-domain"
     return {"single": "single-azimuth", "rotdpp": "rotdpp", "azimuthal": "azimuthal",
@@ -124,10 +130,16 @@ def make_recordings(nrec):
 
 
 def make_settings(kind, width, fft):
+    # "<kind>@<policy>" selects a non-default handle_dissimilar_time_steps_by; the centre frequencies
+    # are a float64 ndarray (the library's own default type) except for width 0.1, where they are a list
+    kind, _, policy = kind.partition("@")
+    fcs = list(FCS) if float(width) == 0.1 else np.array(FCS, dtype=float)
     kw = dict(window_type_and_width=["tukey", float(width)],
               smoothing=dict(operator="konno_and_ohmachi", bandwidth=40.0,
-                             center_frequencies_in_hz=list(FCS)),
+                             center_frequencies_in_hz=fcs),
               fft_settings=fft)
+    if policy:
+        kw["handle_dissimilar_time_steps_by"] = policy
     if kind.startswith("fd:"):
         return hvsrpy.HvsrTraditionalProcessingSettings(method_to_combine_horizontals=kind[3:], **kw)
     if kind == "single":
@@ -164,7 +176,10 @@ def apply_ms(s, field):
     if field == "width":
         s.window_type_and_width[1] = 0.9
     elif field == "fcs":
-        s.smoothing["center_frequencies_in_hz"][0] *= 1.01
+        if isinstance(s.smoothing["center_frequencies_in_hz"], np.ndarray):
+            s.smoothing["center_frequencies_in_hz"] *= 1.01         # the whole array, in place
+        else:
+            s.smoothing["center_frequencies_in_hz"][0] *= 1.01
     elif field == "azimuths":
         s.azimuths_in_degrees[0] = 5
     elif field == "fft_n":
@@ -528,11 +543,26 @@ class System:
         return self.intended_cache[k]
 
     def _reference(self, op, ms, mr, n_used, ctx):
-        """The same call on pristine objects asked for the FFT length the judged call used."""
+        """The same call on pristine objects asked for the FFT length the judged call used -
+        computed in a process without history (engine/pristine.py) when the server is up."""
         k = (self.nrec, op["kind"], op["w"], tuple(ms), tuple(mr), n_used, self.fft if n_used is None else None)
         if k in self.ref_cache:
             ctx.count("fresh_reference_reused")
             return self.ref_cache[k]
+        if k in _REF_CACHE:
+            ctx.count("fresh_reference_reused")
+            self.ref_cache[k] = _REF_CACHE[k]
+            return self.ref_cache[k]
+        if _SERVER is not None:
+            ans = _SERVER.request(dict(nrec=self.nrec, kind=op["kind"], w=op["w"], ms=list(ms), mr=list(mr),
+                                       n_used=n_used, fft=self.fft))
+            ctx.count("transitions")
+            ctx.count("fresh_reference_computed")
+            ctx.count("fresh_reference_computed_in_pristine_process")
+            if len(_REF_CACHE) > 20000:
+                _REF_CACHE.clear()
+            _REF_CACHE[k] = self.ref_cache[k] = ans
+            return ans
         recs = make_recordings(self.nrec)
         for m in mr:
             apply_mr(recs, m)
@@ -794,7 +824,35 @@ def roots(tier, seed):
     return out
 
 
+_SERVER = None
+_REF_CACHE = {}
+
+
+def _pristine_reference(req):
+    """Runs in a fresh child of the pristine server: one call, no history."""
+    recs = make_recordings(req["nrec"])
+    for m in req["mr"]:
+        apply_mr(recs, m)
+    s = make_settings(req["kind"], req["w"], {"n": None})
+    for f in req["ms"]:
+        apply_ms(s, f)
+    n_used = req["n_used"]
+    if n_used is None:
+        s.fft_settings = FFT_REQUESTS[req["fft"]]()
+    elif n_used == L:
+        s.fft_settings = {"n": None}
+    else:
+        s.fft_settings = {"n": int(n_used)}
+    res = run_process(recs, s)
+    n_ref = s.fft_settings.get("n") if isinstance(s.fft_settings, dict) else None
+    return (view(res), preview(res), n_ref)
+
+
 def warm():
+    global _SERVER
+    from hvmc.engine import pristine
+    # the server is forked BEFORE this process runs any hvsrpy processing
+    _SERVER = pristine.PristineServer(_pristine_reference, preload=pristine.preload_numba_kernels).start()
     for k in ("fd:geometric_mean", "psd"):
         run_process(make_recordings(1), make_settings(k, 0.1, {"n": None}))
 
@@ -808,6 +866,10 @@ def run_root(root, ctx, tier):
 
 
 def finalize(ctx, tier):
+    global _SERVER
+    if _SERVER is not None:
+        _SERVER.stop()
+        _SERVER = None
     c = ctx.counters
     need = ["P_judged", "validated", "immediate_repeat_checked", "history_repeat_checked",
             "earlier_results_rechecked", "fresh_reference_computed"]
